@@ -623,6 +623,66 @@ def trunc(e):
     return "(a mod 4294967296)" if e == "addr as u32 as u64" else "a"
 
 
+# ------------------------------------------------------------------ op_analysis.rs: operand evaluation, implicit stack accesses
+oa = rd("minidump-processor/src/op_analysis.rs")
+tf = norm(fn_body(oa, r"impl MemoryAddressInfo \{\s*fn try_from_operand\(\s*op: Operand,\s*context: &MinidumpContext,\s*\) -> Result<Option<Self>, OpAnalysisError>\s*\{",
+                  "MemoryAddressInfo::try_from_operand"))
+FLAG = r"address_info\.is_likely_null_pointer_dereference = true;"
+TF = (r"let Some\(op_info\) = MemoryOperandInfo::try_from_operand\(op\) else \{ return Ok\(None\); \}; "
+      r"let mut address_info = Self \{ address: (?P<init>0x[0-9a-fA-F_]+|\d+), is_likely_null_pointer_dereference: false, is_likely_guard_page: false, \}; "
+      r"if let Some\(reg\) = op_info\.base_reg \{ let base = context\.get_regspec\(reg\)\?; address_info\.address = base; "
+      r"(?:if (?P<bnull>[^{}]+) \{ " + FLAG + r" \} )?\} "
+      r"if let Some\(reg\) = op_info\.index_reg \{ let index = context\.get_regspec\(reg\)\?; "
+      r"let scale = op_info\.scale\.unwrap_or\((?P<scale>\d+)\); let scaled_index = index\.wrapping_mul\(scale\.into\(\)\); "
+      r"address_info\.address = address_info\.address\.wrapping_add\(scaled_index\); "
+      r"(?:if (?P<inull>[^{}]+) \{ " + FLAG + r" \} )?\} "
+      r"let disp = op_info\.disp\.unwrap_or\((?P<disp>\d+)\) as u64; address_info\.address = address_info\.address\.wrapping_add\(disp\); "
+      r"Ok\(Some\(address_info\)\)")
+m = re.fullmatch(TF, tf)
+if not m:
+    die("MemoryAddressInfo::try_from_operand: the statement skeleton changed (base: value + null flag; index: wrapping_mul by the scale, "
+        "wrapping_add; displacement: wrapping_add) — a plain + or * here is a new panic site; coq/C19/Source.v (operand_address_src) must be re-read:\n" + tf)
+op_init = int(m.group("init").replace("_", ""), 0)
+oenv = {"index": ("int", "index"), "address_info.address": ("int", "addr")}
+op_bnull = bexpr(m.group("bnull"), {"base": ("int", "base")}, "try_from_operand base null test") if m.group("bnull") else "false"
+op_inull = bexpr(m.group("inull"), oenv, "try_from_operand index null test") if m.group("inull") else "false"
+op_scale, op_disp = int(m.group("scale")), int(m.group("disp"))
+
+ia = norm(fn_body(oa, r"fn add_derivable_opcode_implicit_access\(", "add_derivable_opcode_implicit_access"))
+m = re.fullmatch(r"let mut push_implicit_access = \|address, access_type\| \{ let address_info = MemoryAddressInfo \{ address, "
+                 r"is_likely_null_pointer_dereference: (?P<null>[^,]+), is_likely_guard_page: false, \}; "
+                 r"self\.accesses\.push\(MemoryAccess \{ address_info, size: mem_size, access_type, \}\); \}; "
+                 r"match opcode \{ (?P<arms>.*) _ => \(\), \} Ok\(\(\)\)", ia)
+if not m:
+    die("add_derivable_opcode_implicit_access: skeleton changed:\n" + ia)
+imp_null = bexpr(m.group("null"), {"address": ("int", "address")}, "implicit access null flag")
+iarm = re.compile(r"((?:\|? ?AccessDerivableOpcode::\w+ ?)+)=> \{ if let Ok\(rsp\) = context\.get_regspec\(RegSpec::rsp\(\)\) \{ "
+                  r"push_implicit_access\((rsp|rsp\.wrapping_sub\((\d+)\)|rsp\.wrapping_add\((\d+)\)), MemoryAccessType::(\w+)\); \} \} ?")
+imp_sets = {}
+rest = m.group("arms")
+while rest:
+    mm = iarm.match(rest)
+    if not mm:
+        die("add_derivable_opcode_implicit_access: unrecognised arm at: " + rest[:200])
+    names = frozenset(re.findall(r"AccessDerivableOpcode::(\w+)", mm.group(1)))
+    off = 0
+    if mm.group(3):
+        off = -int(mm.group(3))
+    elif mm.group(4):
+        off = int(mm.group(4))
+    imp_sets[names] = off
+    rest = rest[mm.end():]
+PUSHCALL, POPRET = frozenset(["CALL", "PUSH"]), frozenset(["POP", "RETF", "RETURN"])
+if set(imp_sets) != {PUSHCALL, POPRET}:
+    die("add_derivable_opcode_implicit_access: the opcode sets with an implicit stack access are no longer {CALL, PUSH} and {POP, RETF, RETURN} "
+        "(the generator's decoded form knows exactly these two kinds): %r" % sorted(map(sorted, imp_sets)))
+ipu = norm(fn_body(oa, r"impl InstructionPointerUpdate \{\s*fn from_instruction\(", "InstructionPointerUpdate::from_instruction"))
+m = re.search(r"let rip_update = \|address\| \{ Some\(InstructionPointerUpdate::Update \{ address_info: MemoryAddressInfo \{ address, "
+              r"is_likely_null_pointer_dereference: ([^,]+), is_likely_guard_page: false, \}, \}\) \};", ipu)
+if not m:
+    die("InstructionPointerUpdate::from_instruction: the rip_update closure changed:\n" + ipu[:600])
+ip_null = bexpr(m.group(1), {"address": ("int", "address")}, "rip_update null flag")
+
 # ------------------------------------------------------------------ emit
 L = []
 L.append("(* GENERATED by translate/c19_src.py from minidump-processor/src/{processor,process_state}.rs and minidump/src/minidump.rs — do not edit *)")
@@ -698,6 +758,19 @@ if len({w for w, _ in pw_arms}) != len(pw_arms):
     die("get_crash_address: duplicate PointerWidth arm")
 L.append("  match pointer_width c with " + " | ".join("W%s => %s" % (w, trunc(x)) for w, x in pw_arms) +
          (" | _ => %s end." % trunc(pw_default) if len(pw_arms) < 3 else " end."))
+L.append("")
+L.append("(* op_analysis.rs MemoryAddressInfo::try_from_operand (all arithmetic is wrapping_* in the source): initial address, the null-flag tests on the")
+L.append("   base / index register value, default scale and displacement *)")
+L.append("Definition G_OP_INIT : Z := %d." % op_init)
+L.append("Definition g_op_base_null (base : Z) : bool := %s." % op_bnull)
+L.append("Definition g_op_index_null (index addr : Z) : bool := %s." % op_inull)
+L.append("Definition G_OP_DEFAULT_SCALE : Z := %d." % op_scale)
+L.append("Definition G_OP_DEFAULT_DISP : Z := %d." % op_disp)
+L.append("(* add_derivable_opcode_implicit_access: offset from rsp for {CALL, PUSH} / {POP, RETF, RETURN}; null flag of an implicit access; of an ip-update target *)")
+L.append("Definition G_IMPLICIT_PUSHCALL_OFF : Z := %d." % imp_sets[PUSHCALL])
+L.append("Definition G_IMPLICIT_POPRET_OFF : Z := %d." % imp_sets[POPRET])
+L.append("Definition g_implicit_null (address : Z) : bool := %s." % imp_null)
+L.append("Definition g_ip_null (address : Z) : bool := %s." % ip_null)
 out = "\n".join(L) + "\n"
 os.makedirs(outdir, exist_ok=True)
 pth = os.path.join(outdir, "C19Src.v")
